@@ -1,5 +1,5 @@
 (* C18: reflection data survive MTZ -> SF-mmCIF -> MTZ. Statements only; proofs in Mtz/RowBufProofs.v. *)
-From GV Require Import Base.Str Mtz.Fmt Mtz.RowBuf Mtz.RowBufProofs Mtz.SpecDefs Mtz.Spec_gen Mtz.SpecCheck.
+From GV Require Import Base.Str Mtz.Fmt Mtz.RowBuf Mtz.RowBufProofs Mtz.SpecDefs Mtz.Spec_gen Mtz.SpecCheck Mtz.Recipe Mtz.RecipeProofs.
 Local Open Scope Z_scope.
 
 (* The (repaired) row formatter never stores outside char buf[256]: for every recipe (non-empty rows; variables
@@ -45,3 +45,78 @@ Theorem spec_inverse_meaning : forall c2m l prev, inverse_ok c2m prev l = true -
             exists a p, In a (m_alts e) /\ subst_prev p a = c_lab c.
 Proof. exact inverse_ok_spec. Qed.
 Print Assumptions spec_inverse_meaning.
+
+(* ------------------------------------------------------------------------------------------------------------
+   The recipe: which MTZ column each specification line selects (model of find_column_index, check_format,
+   parse_spec_line, prepare_recipe in Mtz/Recipe.v; compared with gemmi on every run by the command "recipe"). *)
+
+(* a line 'A|B|C' selects the first alternative IN SPEC ORDER that is a label of the file, and of the columns with
+   that label the first in file order; it selects nothing iff no alternative is a label *)
+Theorem C18_find_column_index_some : forall column cols i, find_column_index column cols = Some i ->
+  exists pre a post, split_on 124 column [] = pre ++ a :: post /\ (forall b, In b pre -> ~ has_label cols b) /\
+    0 <= i < Z.of_nat (length cols) /\ label_at cols i = a /\ (forall j, 0 <= j < i -> label_at cols j <> a).
+Proof. exact find_column_index_some. Qed.
+Print Assumptions C18_find_column_index_some.
+
+Theorem C18_find_column_index_none : forall column cols,
+  find_column_index column cols = None <-> forall a, In a (split_on 124 column []) -> ~ has_label cols a.
+Proof. exact find_column_index_none. Qed.
+Print Assumptions C18_find_column_index_none.
+
+(* every recipe returned, for every list of specification lines (custom or default), every option value and every
+   file with at least H K L: not empty; every entry copies an existing column or is one of the five variables; every
+   minimal width is at most 32 (the hypothesis of rowbuf_inv); no tag occurs twice (the loop is a valid CIF loop);
+   H, K and L are there *)
+Theorem C18_recipe_well_formed : forall o cols lines r, (3 <= length cols)%nat ->
+  prepare_recipe o cols lines = Some r ->
+  r <> [] /\ Forall (trans_ok cols) r /\ NoDup (map tr_tag r) /\
+  (forall i, 0 <= i <= 2 -> exists t, In t r /\ tr_col t = i).
+Proof. exact prepare_recipe_wf. Qed.
+Print Assumptions C18_recipe_well_formed.
+
+(* the order of the two last steps in the pinned snapshot let a repeated tag through (found while proving NoDup;
+   reproduced on gemmi: the written loop had _refln.index_h twice and did not parse; repaired in /repo) *)
+Theorem C18_recipe_nodup_snapshot_refuted :
+  exists r, prepare_recipe_orig (mkOpts 0 true true) dup_witness_cols dup_witness_lines = Some r /\
+            ~ NoDup (map tr_tag r).
+Proof. exact prepare_recipe_orig_dup. Qed.
+Print Assumptions C18_recipe_nodup_snapshot_refuted.
+
+(* the state kept between lines: recipe.resize(verified_spec_size) is always a truncation *)
+Theorem C18_recipe_invariant : forall o cols lines st st', Inv cols st -> parse_lines o cols st lines = Some st' -> Inv cols st'.
+Proof. exact parse_lines_inv. Qed.
+Print Assumptions C18_recipe_invariant.
+
+(* every entry of a recipe is an inserted index_h/k/l or comes from a line of the specification: it carries that
+   line's tag, a column of the type the line asks for (or '*'), found by find_column_index from the line's column
+   word (possibly after {prev} substitution) *)
+Theorem C18_recipe_provenance : forall o cols lines r, prepare_recipe o cols lines = Some r ->
+  forall t, In t r -> index_entry t \/ exists l, In l lines /\ from_line cols l t.
+Proof. exact prepare_recipe_provenance. Qed.
+Print Assumptions C18_recipe_provenance.
+
+(* the raw default specification text (regenerated from the code), read by the model's read_word, is the structured
+   table spec_inverse talks about *)
+Theorem C18_raw_spec_is_structured :
+  map struct_of_line m2c_merged_raw = m2c_merged /\ map struct_of_line m2c_unmerged_raw = m2c_unmerged.
+Proof. exact raw_spec_is_structured. Qed.
+Print Assumptions C18_raw_spec_is_structured.
+
+(* END TO END for the default merged specification and EVERY file: each mapped column is written under a tag that the
+   default mmCIF -> MTZ table knows and that table gives the column back its MTZ type *)
+Theorem C18_default_merged_types_survive : forall o cols r,
+  prepare_recipe o cols m2c_merged_raw = Some r ->
+  forall t, In t r -> 0 <= tr_col t -> ~ index_entry t ->
+  exists c, lookup (tr_tag t) (builtin_hkl ++ c2m_merged) = Some c /\ c_ty c = type_at cols (tr_col t).
+Proof. exact default_merged_types_survive. Qed.
+Print Assumptions C18_default_merged_types_survive.
+
+(* non-vacuity: I/SIGI placed BEFORE IMEAN/SIGIMEAN in the file - the default recipe takes IMEAN and SIGIMEAN *)
+Theorem C18_recipe_example :
+  option_map (shown ex_cols) (prepare_recipe (mkOpts 0 true true) ex_cols m2c_merged_raw) =
+  Some [([105;110;100;101;120;95;104], Some [72]); ([105;110;100;101;120;95;107], Some [75]);
+        ([105;110;100;101;120;95;108], Some [76]);
+        ([105;110;116;101;110;115;105;116;121;95;109;101;97;115], Some [73;77;69;65;78]);
+        ([105;110;116;101;110;115;105;116;121;95;115;105;103;109;97], Some [83;73;71;73;77;69;65;78])].
+Proof. exact default_recipe_example. Qed.
+Print Assumptions C18_recipe_example.
